@@ -788,7 +788,8 @@ def model_subn_detail(wd: Path, row: str) -> str:
     p = wd / "replay_subn.v"
     p.write_text(HEADER + f"Definition c : subn_case := {row}.\n"
                  "Eval vm_compute in (subn_case_code c).\nEval vm_compute in (model_items c).\n"
-                 "Eval vm_compute in (model_sched c).\nEval vm_compute in (model_cand c).\n")
+                 "Eval vm_compute in (model_sched c).\nEval vm_compute in (model_cand c).\n"
+                 "Eval vm_compute in (model_cand_d true c).\n")
     rc, out = common.coqc(p)
     return out[-6000:]
 
@@ -1461,7 +1462,8 @@ def check(run: common.Run):
                                     "n": rec["n"], "error": rec["error"]},
                            "model": detail[-3000:],
                            "explanation": "model and implementation disagree (code: 1 ignore lines, 2 yielded "
-                                          "items, 3 schedule, 4 text, 5 count); the property oracle found no "
+                                          "items, 3 schedule, 4 text, 5 count, 6 text depends on a validity answer "
+                                          "the implementation never produced); the property oracle found no "
                                           "failing input"}, False)
         for i in edis[:4]:
             run.violation({"kind": "correspondence", "kernel": "K13 ExprModel (unparse / parse / inst_text)",
